@@ -104,6 +104,14 @@ def exec_twin(decl, steps, contraction_of, lead=None, pre_step=None, reuse_ops=T
         if not reuse_ops:
             st.pop("op_id", None)
         if pre_step:
+            if st["k"] == "apply":
+                # the operation object exists before the unrelated activity happens
+                if st.get("op_id") is None:
+                    st["op_id"] = f"pre{i}"
+                try:
+                    runner.get_op(st)
+                except Exception:  # noqa: BLE001 - construction errors surface again inside the step
+                    pass
             pre_step(runner, i, st)
             runner.C.set_contraction(bool(contraction_of(i)))
         S.want = wishes(lead[i]) if lead is not None and i < len(lead) else None
@@ -315,94 +323,86 @@ def _orig_arrays(step):
 # =========================================================================== C18
 
 
-def phased_decl(decl, rng):
-    """the same physical world, but every local pure state is written as an explicit vector with its own global
-    phase (labels become phased basis vectors), so no two subsystems hold numerically equal data"""
-    out = copy.deepcopy(decl)
+def _basis(d, n, phase=1.0):
+    v = np.zeros(d, complex)
+    v[n] = phase
+    return v
+
+
+def collide_pair(gen, rng):
+    """(mode, declA, declB): A holds numerically equal local states in several subsystems, B is the twin.
+
+    mode 'labels': A has equal labels, B distinct labels of the same kind/level -> compare structure only
+    mode 'arrays': A has equal vectors/matrices, B the same physical states with distinct global phases
+                   -> compare structure and physics"""
+    from pwv.world import POLVEC
+    nenv = int(rng.integers(2, 4))
+    ncus = int(rng.integers(0, 3)) if rng.random() < 0.5 else 0
+    mode = "labels" if rng.random() < 0.45 else "arrays"
+    A, B = [], []
     k = [0]
 
     def ph():
         k[0] += 1
         return np.exp(1j * (0.37 + 0.61 * k[0]))
 
-    def conv(init, kind, d=None):
-        if init is None:
-            init = {"k": "label", "n": 0} if kind != "P" else {"k": "label", "l": "H"}
-        if init["k"] == "label":
-            if kind == "P":
-                from pwv.world import POLVEC
-                v = POLVEC[init["l"]] * ph()
-                return {"k": "vec", "v": c2j(v)}
-            if kind == "F":
-                n = init["n"]
-                dims = init.get("dims") or n + 3
-                v = np.zeros(dims, complex)
-                v[n] = ph()
-                return {"k": "vec", "dims": dims, "v": c2j(v)}
-            v = np.zeros(d, complex)
-            v[init["n"]] = ph()
-            return {"k": "vec", "v": c2j(v)}
-        if init["k"] == "vec":
-            new = dict(init)
-            new["v"] = c2j(j2c(init["v"]) * ph())
-            return new
-        return init
-
-    for it in out:
-        if it["t"] == "env":
-            it["fock"] = conv(it.get("fock"), "F")
-            it["pol"] = conv(it.get("pol"), "P")
-        elif it["t"] == "custom":
-            it["init"] = conv(it.get("init"), "X", it["d"])
-        elif it["t"] == "fock":
-            it["init"] = conv(it.get("init"), "F")
-        elif it["t"] == "pol":
-            it["init"] = conv(it.get("init"), "P")
-    return out
-
-
-def collide_decl(gen, rng):
-    """world in which several subsystems deliberately hold numerically equal local states"""
-    nenv = int(rng.integers(2, 4))
+    if mode == "labels":
+        dims = int(rng.integers(3, 5))
+        n = int(rng.integers(1, 3))
+        pl = str(rng.choice(["H", "V", "R"]))
+        others = [x for x in range(1, dims) if x != n]
+        for i in range(nenv):
+            A.append({"t": "env", "name": f"E{i}", "fock": {"k": "label", "n": n, "dims": dims}, "pol": {"k": "label", "l": pl}})
+            nb = n if i == 0 else others[(i - 1) % len(others)]
+            plb = pl if i == 0 else ["H", "V", "R", "L"][(["H", "V", "R", "L"].index(pl) + i) % 4]
+            B.append({"t": "env", "name": f"E{i}", "fock": {"k": "label", "n": nb, "dims": dims}, "pol": {"k": "label", "l": plb}})
+        for i in range(ncus):
+            A.append({"t": "custom", "name": f"X{i}", "d": 3, "init": {"k": "label", "n": 1}})
+            B.append({"t": "custom", "name": f"X{i}", "d": 3, "init": {"k": "label", "n": 1 if i == 0 else 2}})
+        return mode, A, B
+    d = int(rng.integers(2, 4))
     x = rng.random()
-    if x < 0.5:
-        f = {"k": "label", "n": int(rng.integers(0, 2)), "dims": int(rng.integers(2, 4))}
+    if x < 0.4:
+        fv = _basis(d, int(rng.integers(0, d)))
+        fock = lambda p: {"k": "vec", "dims": d, "v": c2j(fv * p)}  # noqa: E731
     elif x < 0.8:
-        d = int(rng.integers(2, 4))
-        f = {"k": "vec", "dims": d, "v": c2j(gen.vec(d))}
+        fv = gen.vec(d)
+        fock = lambda p: {"k": "vec", "dims": d, "v": c2j(fv * p)}  # noqa: E731
     else:
-        d = int(rng.integers(2, 4))
-        f = {"k": "mat", "dims": d, "m": c2j(gen.mixed(d))}
+        fm = gen.mixed(d)
+        fock = lambda p: {"k": "mat", "dims": d, "m": c2j(fm)}  # noqa: E731
     y = rng.random()
-    pl = {"k": "label", "l": str(rng.choice(["H", "V", "R"]))} if y < 0.6 else {"k": "vec", "v": c2j(gen.vec(2))}
-    decl = []
+    pv = POLVEC[str(rng.choice(["H", "V", "R"]))] if y < 0.5 else gen.vec(2)
     for i in range(nenv):
-        ff = copy.deepcopy(f) if rng.random() < 0.85 else gen.local_init("F")
-        pp = copy.deepcopy(pl) if rng.random() < 0.7 else gen.local_init("P")
-        decl.append({"t": "env", "name": f"E{i}", "fock": ff, "pol": pp})
-    if rng.random() < 0.5:
-        d = 2
-        c = {"k": "label", "n": 0} if rng.random() < 0.6 else {"k": "vec", "v": c2j(gen.vec(d))}
-        for i in range(2):
-            decl.append({"t": "custom", "name": f"X{i}", "d": d, "init": copy.deepcopy(c)})
-    return decl
+        own = rng.random() < 0.15
+        fa = gen.local_init("F") if own else fock(1.0)
+        if fa["k"] == "label" and fa.get("dims") is None:
+            fa["dims"] = fa["n"] + 2
+        fb = fa if own else fock(ph())
+        A.append({"t": "env", "name": f"E{i}", "fock": fa, "pol": {"k": "vec", "v": c2j(pv)}})
+        B.append({"t": "env", "name": f"E{i}", "fock": fb, "pol": {"k": "vec", "v": c2j(pv * ph())}})
+    cv = gen.vec(2)
+    for i in range(ncus):
+        A.append({"t": "custom", "name": f"X{i}", "d": 2, "init": {"k": "vec", "v": c2j(cv)}})
+        B.append({"t": "custom", "name": f"X{i}", "d": 2, "init": {"k": "vec", "v": c2j(cv * ph())}})
+    return mode, A, B
 
 
-def c18_twin(a, col, budget):
+def c18_twin(a, col, budget=None):
+    budget = budget or a.budget
     pidx = 18
     t0 = time.time()
     prog = 0
     w = {"config": 0, "measure": 5, "combine": 4, "reorder": 2, "trace_out": 3, "apply1": 2, "applyc": 2, "kraus": 1, "povm": 1.5,
-         "resize": 0.5, "composite": 1.5}
+         "resize": 0, "composite": 1.5, "contract": 0.3, "expand": 0.8}
     while time.time() - t0 < budget:
         rng = np.random.default_rng([a.seed, pidx, a.shard, prog, 3])
         prog += 1
-        gen = Gen(rng, "generic", a.tier, {"approx_ops": False, "weights": w})
-        decl = collide_decl(gen, rng)
-        declB = phased_decl(decl, rng)
+        gen = Gen(rng, "generic", a.tier, {"approx_ops": False, "weights": w, "fock_types": ["PhaseShift", "Identity", "Creation"]})
+        mode, decl, declB = collide_pair(gen, rng)
         contraction = bool(rng.random() < 0.5)
         srng = np.random.default_rng(int(rng.integers(0, 2**31)))
-        # lead = phased (value-distinct) world: the program is generated against it
+        # lead = value-distinct world: the program is generated against it
         runner = Runner(declB, steer_rng=srng, mode="steer", contraction=contraction)
         steps, B = [], []
         for i in range(int(rng.integers(4, 10))):
@@ -423,17 +423,16 @@ def c18_twin(a, col, budget):
         if not steps:
             continue
 
-        def replay(decl=decl, declB=declB, steps=steps, contraction=contraction):
-            return {"prop": "C18", "kind": "twin", "decl": decl, "decl_phased": declB, "steps": steps, "contraction": contraction}
+        def replay(decl=decl, declB=declB, steps=steps, contraction=contraction, mode=mode):
+            return {"prop": "C18", "kind": "twin", "mode": mode, "decl": decl, "decl_distinct": declB, "steps": steps, "contraction": contraction}
 
-        A, _ = exec_twin(decl, steps, lambda i: contraction, lead=B)
-        cellfn = lambda st, s: ("twin", st["k"], st.get("via", "-"), len(st.get("targets", st.get("args", []))))  # noqa: E731
-        # compare: who was addressed / measured / combined, and the physics
+        A, _ = exec_twin(decl, steps, lambda i: contraction, lead=B if mode == "arrays" else None)
+        cellfn = lambda st, s: ("twin", mode, st["k"], st.get("via", "-"), len(st.get("targets", st.get("args", []))))  # noqa: E731
         n = min(len(A), len(B))
         for i in range(n):
             sa, sb, st = A[i], B[i], steps[i]
             cell = cellfn(st, sa)
-            sig = {"kind": st["k"], "via": st.get("via", "-")}
+            sig = {"kind": st["k"], "via": st.get("via", "-"), "twin": mode}
             if sa["raised"] != sb["raised"]:
                 sig["exc"] = sa["exc"] or sb["exc"]
                 sig["frame"] = sa["frame"] or sb["frame"]
@@ -442,16 +441,27 @@ def c18_twin(a, col, budget):
             ka = None if sa["outcomes"] is None else sorted(sa["outcomes"])
             kb = None if sb["outcomes"] is None else sorted(sb["outcomes"])
             if ka != kb:
-                col.add([V("C18", False, "outcome-keys-differ", f"step {i}: outcome entries {ka} vs {kb} in the value-distinct twin", cell, **sig)], replay)
-                break
-            if sa["outcomes"] != sb["outcomes"] or sa.get("povm") != sb.get("povm"):
-                col.add([INC("C18", "steering-mismatch", cell)], replay)
+                col.add([V("C18", False, "outcome-keys-differ", f"step {i} {st['k']} via {st.get('via')}: outcome entries {ka} but {kb} in the value-distinct twin", cell, **sig)], replay)
                 break
             if sa["live"] != sb["live"]:
-                col.add([V("C18", False, "live-sets-differ", f"step {i}: {sa['live']} vs {sb['live']}", cell, **sig)], replay)
+                col.add([V("C18", False, "live-sets-differ", f"step {i} {st['k']}: {sa['live']} vs {sb['live']}", cell, **sig)], replay)
                 break
             if sa["blocks"] is not None and sb["blocks"] is not None and sa["blocks"] != sb["blocks"]:
                 col.add([V("C18", False, "partition-differs", f"step {i} {st['k']}: blocks {sa['blocks']} vs {sb['blocks']}", cell, **sig)], replay)
+                break
+            if st["k"] == "trace_out" and not sa["raised"]:
+                sha, shb = getattr(sa.get("ret"), "shape", None), getattr(sb.get("ret"), "shape", None)
+                if sha != shb:
+                    col.add([V("C18", False, "returned-shape-differs", f"step {i} trace_out: {sha} vs {shb}", cell, **sig)], replay)
+                    break
+            if mode == "labels":
+                col.add([V("C18", True, "", "", cell, **sig)], replay)
+                if sa["outcomes"] != sb["outcomes"]:
+                    # different labels -> different outcomes are expected; histories may now legitimately diverge
+                    pass
+                continue
+            if sa["outcomes"] != sb["outcomes"] or sa.get("povm") != sb.get("povm"):
+                col.add([INC("C18", "steering-mismatch", cell)], replay)
                 break
             if not sa.get("valid", True) or not sb.get("valid", True):
                 col.add([INC("C18", "invalid-state-in-twin", cell)], replay)
@@ -466,4 +476,5 @@ def c18_twin(a, col, budget):
         col.programs += 1
         col.steps += 2 * len(steps)
         if len(col.samples) < 2:
-            col.samples.append({"twin": "equal-valued vs value-distinct", "decl": decl, "steps": [{k: v for k, v in s.items() if k != "ops"} for s in steps[:5]]})
+            col.samples.append({"twin": "equal-valued vs value-distinct (" + mode + ")", "decl": decl, "decl_distinct": declB,
+                                "steps": [{k: v for k, v in s.items() if k != "ops"} for s in steps[:5]]})
